@@ -104,6 +104,7 @@ let show_res (r : res) : Stdlib.String.t =
   | RStored (a, b) -> "stored:" ^ z a ^ ":" ^ z b
   | RTokens l -> "tokens:" ^ Stdlib.String.concat "," (List.map (fun (a, b) -> z a ^ "." ^ z b) l)
   | RWalk l -> "walk:" ^ Stdlib.String.concat "," (List.map z l)
+  | RShape (a, b) -> "shape:" ^ z a ^ ":" ^ z b
   | ROther -> "other"
 let show_diags (ds : dg list) : Stdlib.String.t =
   let shown = List.filter_map (fun d -> let (lv, code) = dg_code d in
@@ -172,6 +173,22 @@ let () = iter_lines (fun line ->
           | None -> "none"
           | Some (a, b) -> "some:" ^ hex_of_bytes (List.map (fun c -> int_of_string (string_of_z c)) a) ^ ":" ^
                            hex_of_bytes (List.map (fun c -> int_of_string (string_of_z c)) b))
+       | "is_matrix", [a] -> (match is_matrix (parse_list a) with AOk -> "ok" | ANo -> "no" | AThrow -> "throw" | AUB -> "ub")
+       | "matrix_transpose", [a] -> show (matrix_transpose (parse_list a))
+       | "matrix_multiply", [a; b] -> show (matrix_multiply (parse_list a) (parse_list b))
+       | "transpose_body", [a] -> show (transpose_body (parse_list a))
+       | "multiply_body", [a; b] -> show (multiply_body (parse_list a) (parse_list b))
+       | "vec3_unary", [k; a] -> show (vec3_unary (if k = "at" then VkAt else VkConv) (parse_list a))
+       | "vec3_binary", [k; a; b] -> show (vec3_binary (if k = "at" then VkAt else VkConv) (parse_list a) (parse_list b))
+       | "then_if_array", [c; a] -> show (then_if_array (c = "1") (parse_list a))
+       | "private_array", [a] -> show (private_array (parse_list a))
+       | "ns_getvar", [fnd; a] -> show (ns_getvar (fnd = "1") (parse_list a))
+       | "ns_setvar", [a] -> show (ns_setvar (parse_list a))
+       | "set_marker_pos", [ex; a] -> show (set_marker_pos (ex = "1") (parse_list a))
+       | "set_marker_size", [ex; a] -> show (set_marker_size (ex = "1") (parse_list a))
+       | "create_marker", [nu; ex; a] -> show (create_marker (nu = "1") (ex = "1") (parse_list a))
+       | "cfg_select", [nu; ids; f] -> show (cfg_select df (nu = "1") (parse_zlist ids) (parse_fl f))
+       | "callext_args", [hp; ld; a] -> show (callext_args (hp = "1") (ld = "1") (parse_list a))
        | "bom", [h] -> (match bom_model df (bytes h) with BSkip k -> "skip:" ^ string_of_z k | BUB -> "UB")
        | "dispatch_n", [n] -> (match d_nular (coq_of_string n) with NFound -> "found" | NUnknown -> "unknown")
        | "dispatch_u", [n; r] ->
